@@ -408,39 +408,47 @@ def run(ctx, anchors=None):
     if not mse:
         raise AnalysisBroken("R12.8: MAX_SCRIPT_ELEMENT_SIZE not found")
     n128 = 0
-    for n in main.nodes():
-        if not (astq.is_call(n) and n.get("n") in ("snprintf", "sprintf") and any(x["k"] == "call" and x.get("n") == "HexStr" for a in n.get("args", [])[2:] if a for x in walk(a))):
-            continue
-        dst = n["args"][0]
+    # the driver itself, and the functions it calls to format one line (a helper shared with the pane)
+    fmt_funcs = [(main, 8)]
+    for cn_ in main.nodes():
+        if cn_["k"] == "call" and cn_.get("cid") and not cn_.get("ext"):
+            for g_ in prog.resolve(cn_["cid"]):
+                if g_.body is not None and g_.file.startswith(("functions.", "btcdeb.cpp", "instance.")) and all(g_ is not x_[0] for x_ in fmt_funcs):
+                    fmt_funcs.append((g_, 0))
+
+    def fixed_array_of(ff, dst):
         while dst is not None and dst.get("k") in ("cast", "paren"):
             dst = dst["e"]
-        arr = None
-        if dst is not None and dst.get("k") == "ref":
-            for dn in main.nodes():
-                if dn["k"] == "decl":
-                    for d in dn["decls"]:
-                        if d["d"] == dst.get("d"):
-                            if d.get("arraysize"):
-                                arr = d
-                            elif d.get("init") is not None:
-                                i0 = d["init"]
-                                while i0 is not None and i0.get("k") in ("cast", "paren"):
-                                    i0 = i0["e"]
-                                for dn2 in main.nodes():
-                                    if dn2["k"] == "decl":
-                                        for d2 in dn2["decls"]:
-                                            if i0 is not None and d2["d"] == i0.get("d") and d2.get("arraysize"):
-                                                arr = d2
-        if arr is None:
-            continue
-        n128 += 1
-        ctx.site()
-        need = 2 * mse + 1 + 8      # '#' + up to five digits + blank, the digits, the terminator
-        ctx.inst(arr["arraysize"] >= need, "R12.8", "listing-buffer-holds-a-maximal-push@%s" % main.name, main.loc(n),
-                 "%s[%d] holds 2 x %d hex digits plus the line prefix" % (arr["n"], arr["arraysize"], mse),
-                 "the listing formats the hex of a push into %s[%d]: a push of more than %d bytes (up to %d are legal) is cut short, so `print` does not show the script's exact decoding" %
-                 (arr["n"], arr["arraysize"], (arr["arraysize"] - 8) // 2, mse))
-    ctx.floor("R12.8", n128, 1, "formatted writes of a push's hex into a fixed buffer in the listing code")
+        if dst is None or dst.get("k") != "ref":
+            return None
+        for dn in ff.nodes():
+            if dn["k"] == "decl":
+                for d in dn["decls"]:
+                    if d["d"] == dst.get("d"):
+                        if d.get("arraysize"):
+                            return d
+                        if d.get("init") is not None:
+                            return fixed_array_of(ff, d["init"])
+        return None
+    for (ff, prefix_len) in fmt_funcs:
+        for n in ff.nodes():
+            if not (astq.is_call(n) and n.get("n") in ("snprintf", "sprintf") and any(x["k"] == "call" and x.get("n") == "HexStr" for a in n.get("args", [])[2:] if a for x in walk(a))):
+                continue
+            if ff is not main and ff.name == "svprintscripts":
+                continue      # the two-column pane abbreviates long values on purpose
+            arr = fixed_array_of(ff, n["args"][0])
+            if arr is None:
+                continue
+            n128 += 1
+            ctx.site()
+            need = 2 * mse + 1 + prefix_len      # ('#' + up to five digits + blank in the driver's own buffer,) the digits, the terminator
+            ctx.inst(arr["arraysize"] >= need, "R12.8", "listing-buffer-holds-a-maximal-push@%s" % ff.name, ff.loc(n),
+                     "%s[%d] holds 2 x %d hex digits plus the line prefix" % (arr["n"], arr["arraysize"], mse),
+                     "the listing formats the hex of a push into %s[%d] (%s): a push of more than %d bytes (up to %d are legal) is cut short, so `print` does not show the script's exact decoding" %
+                     (arr["n"], arr["arraysize"], ff.name, (arr["arraysize"] - 1 - prefix_len) // 2, mse))
+    if n128 == 0:
+        ctx.note("R12.8: the listing code formats no push into a fixed-size buffer (lines built as std::string): nothing to bound")
+    ctx.extra["R12.8_fixed_buffers"] = n128
 
 
 MUTANTS = [
